@@ -7352,6 +7352,12 @@ static int _fetch_as_buffer(PyObject *x, Py_buffer *view, int writable_only)
         }
         view->buf = ((CDataObject *)x)->c_data;
         view->obj = NULL;
+        /* the number of bytes is known for arrays only; -1 means "unknown"
+           (a pointer: the caller has to trust the length it is given) */
+        view->len = -1;
+        if ((ct->ct_flags & CT_ARRAY) && ct->ct_itemdescr->ct_size >= 0)
+            view->len = get_array_length((CDataObject *)x) *
+                        ct->ct_itemdescr->ct_size;
         return 0;
     }
     else {
